@@ -127,7 +127,8 @@ func initAllowed(path string) bool {
 	switch path {
 	case "io", "strconv", "math", "math/bits", "unicode/utf8", "encoding/binary",
 		"time", "sort", "bytes", "strings", "context", "io/fs", "internal/oserror",
-		"compress/flate", "compress/gzip", "compress/zlib", "compress/lzw", "hash/crc32", "hash/adler32", "bufio":
+		"compress/flate", "compress/gzip", "compress/zlib", "compress/lzw", "hash/crc32", "hash/adler32", "bufio",
+		"crypto/sha256", "encoding/hex":
 		return true
 	}
 	return false
